@@ -49,27 +49,31 @@ FAMILIES = {
                            sim(30000, 8, NSlots="= 3")]),
     "Annot": fam("MC_Annot",
                  quick=[chain(4, hops=2), sim(1500, 6, design=False, NSlots="= 2"),
-                        sim(1500, 10, design=False, NSlots="= 1", Ops="<- OpsHints", Shapes2="<- ShapesH")],
-                 thorough=[ex(3), chain(5, hops=2), sim(30000, 8, NSlots="= 2"),
+                        sim(1500, 10, design=False, NSlots="= 1", Ops="<- OpsHints", Shapes2="<- ShapesH"),
+                        chain(4, hops=2, Ops="<- OpsOS")],
+                 thorough=[chain(5, hops=2, Ops="<- OpsOS"), ex(3), chain(5, hops=2), sim(30000, 8, NSlots="= 2"),
                            sim(20000, 12, design=False, NSlots="= 1", Ops="<- OpsHints", Shapes2="<- ShapesH")]),
     "Hidden": fam("MC_Hidden",
                   quick=[ex(2), sim(1500, 6, design=False, NSlots="= 2", NilOps="= TRUE")],
                   thorough=[ex(3), sim(30000, 8, NSlots="= 3", NilOps="= TRUE")]),
     "Multi": fam("MC_Multi",
                  quick=[ex(2, NSlots="= 3"), ex(3, NSlots="= 2", NilOps="= TRUE", HopLast="= 1"),
-                        sim(1500, 6, design=False, NSlots="= 3", NilOps="= TRUE")],
-                 thorough=[ex(3, NSlots="= 3"), ex(4, NSlots="= 2", NilOps="= TRUE", HopLast="= 2"),
+                        sim(1500, 6, design=False, NSlots="= 3", NilOps="= TRUE"),
+                        sim(2000, 8, design=False, NSlots="= 3", Ops="<- OpsNest", Shapes="<- ShapesOneW")],
+                 thorough=[sim(30000, 9, design=False, NSlots="= 3", Ops="<- OpsNest", Shapes="<- ShapesOneW"), ex(3, NSlots="= 3"), ex(4, NSlots="= 2", NilOps="= TRUE", HopLast="= 2"),
                            sim(30000, 8, NSlots="= 3", NilOps="= TRUE")]),
     "Taint": fam("MC_Taint",
                  quick=[sim(640, 5, design=False, NSlots="= 2", Fresh="= TRUE"),
                         sim(320, 5, design=False, NSlots="= 2", Fresh="= TRUE", Shapes="<- ShapesR", Shapes2="<- Shapes2R"),
                         chain(4, hops=2, Fresh="= TRUE", Ops="<- OpsBarrier", Shapes="<- ShapesR", Shapes2="<- Shapes2R"),
-                        sim(160, 4, design=False, NSlots="= 2", Fresh="= TRUE", Shapes="<- ShapesLong", Shapes2="<- Shapes2R")],
+                        sim(160, 4, design=False, NSlots="= 2", Fresh="= TRUE", Shapes="<- ShapesLong", Shapes2="<- Shapes2R"),
+                        chain(4, hops=2, Fresh="= TRUE", Ops="<- OpsRetain", Shapes="<- ShapesOneW", Shapes2="<- Shapes2R")],
                  thorough=[sim(20000, 7, design=False, NSlots="= 3", Fresh="= TRUE"),
                            sim(10000, 7, design=False, NSlots="= 3", Fresh="= TRUE", Shapes="<- ShapesR",
                                Shapes2="<- Shapes2R"),
                            chain(4, hops=2, Fresh="= TRUE", Ops="<- OpsBarrier", Shapes="<- ShapesR", Shapes2="<- Shapes2R"),
-                           sim(3000, 6, design=False, NSlots="= 2", Fresh="= TRUE", Shapes="<- ShapesLong", Shapes2="<- Shapes2R")]),
+                           sim(3000, 6, design=False, NSlots="= 2", Fresh="= TRUE", Shapes="<- ShapesLong", Shapes2="<- Shapes2R"),
+                           chain(5, hops=2, Fresh="= TRUE", Ops="<- OpsRetain", Shapes="<- ShapesOneW", Shapes2="<- Shapes2R")]),
     "Format": fam("MC_Format", full=True,
                   quick=[chain(2, hops=0), sim(400, 5, design=False, NSlots="= 2")],
                   thorough=[ex(2), chain(2, hops=0), sim(8000, 7, design=False, NSlots="= 3")]),
